@@ -9,7 +9,7 @@ import (
 
 func init() {
 	register(&propDef{
-		ID: "C13", Level: "other", Run: runC13,
+		ID: "C13", Level: "other", Run: withShared(runC13, share{"C01", runC01, chipMoverInvariant}),
 		Explanation: "The per-seat blind payment is extracted as a decision table and compared on a grid with: pay the big blind iff BB > 0 and the seat holds bb, else the small blind iff SB > 0 and it holds sb, else the dealer blind iff Dealer > 0 and it holds dealer, else nothing — each capped by the stack and paid through the chip mover as a wager; the table layer waits on exactly the seats the engine charges; the blinds wait point is bypassed only when every blind field is zero; the ante is paid as a non-wager by every player and swept into the pot (pots published, player and round status reset) before preflop; the minimum raise after the blinds is the big blind (dealer blind if none) and the minimum bet the larger of dealer blind and big blind.",
 		Trusted:     commonTrusted,
 		Assumptions: []string{"grid 0..3 for blind sizes and the stack; all eight position combinations"},
@@ -42,6 +42,7 @@ func runC13(c *Ctx) {
 	} else {
 		c.touch(fnKey(pb))
 		s := newSumm(p, 0)
+		s.HelperInline = func(f *ssa.Function) bool { return privateHelper(pb, f) && f != mover }
 		paths, cut := s.Function(pb)
 		if cut != "" {
 			c.undecided("blind-table", fnKey(pb), p.FnPos(pb), "summary cut: "+cut)
@@ -176,6 +177,7 @@ func runC13(c *Ctx) {
 	} else {
 		c.touch(fnKey(pa))
 		s := newSumm(p, 0)
+		s.HelperInline = func(f *ssa.Function) bool { return privateHelper(pa, f) && f != mover }
 		paths, _ := s.Function(pa)
 		var bad []string
 		n := 0
@@ -255,6 +257,7 @@ func runC13(c *Ctx) {
 	// ---- min-raise-init
 	if gb != nil {
 		s := newSumm(p, 0)
+		s.HelperInline = func(f *ssa.Function) bool { return privateHelper(gb, f) && f != mover && !eg.MayEmit[f] }
 		paths, _ := s.Function(gb)
 		var bad []string
 		n := 0
@@ -293,6 +296,7 @@ func runC13(c *Ctx) {
 	} else {
 		c.touch(fnKey(ini))
 		s := newSumm(p, 0)
+		s.HelperInline = func(f *ssa.Function) bool { return privateHelper(ini, f) && f != mover && !eg.MayEmit[f] }
 		paths, _ := s.Function(ini)
 		var bad []string
 		ints, bools := tableVars(paths)
